@@ -9,7 +9,8 @@ EXPLANATION = ("C03: the encoder's structure is compared with the Source Map v3 
                "optional keys carry skip-if-none and the encoder yields None rather than empty values; (R3) version 3 in "
                "every writer; (R4) VLQ writer shape/alphabet and who-may-call encode_vlq; (R5) sections written "
                "recursively with unswapped offsets."
-               " (R8) the data URL is standard padded base64 behind the literal preamble.")
+               " (R8) the data URL is standard padded base64 behind the literal preamble."
+               " (RW) the wire structs RawSourceMap/RawSection carry derived serde impls only, so key names and optionality are exactly what the attributes say.")
 NOT_DECIDED = "that an independent v3 reader decodes exactly the map's tokens for all maps (value-level)."
 
 RULES = {
